@@ -26,6 +26,31 @@ pub fn from_limbs(v: &Value) -> Option<u64> {
         .checked_add(l0)
 }
 
+/// The instant `s + ns/10^9` seconds after the Unix epoch (`s` may be negative).
+pub fn systime(s: i64, ns: u32) -> std::time::SystemTime {
+    use std::time::{Duration, SystemTime};
+    if s >= 0 {
+        SystemTime::UNIX_EPOCH + Duration::new(s as u64, ns)
+    } else {
+        SystemTime::UNIX_EPOCH - Duration::from_secs(s.unsigned_abs()) + Duration::new(0, ns)
+    }
+}
+
+/// Inverse of `systime`: (floor of the seconds since the epoch, nanoseconds).
+pub fn secs_ns(t: std::time::SystemTime) -> (i64, u32) {
+    match t.duration_since(std::time::SystemTime::UNIX_EPOCH) {
+        Ok(d) => (d.as_secs() as i64, d.subsec_nanos()),
+        Err(e) => {
+            let d = e.duration();
+            if d.subsec_nanos() == 0 {
+                (-(d.as_secs() as i64), 0)
+            } else {
+                (-(d.as_secs() as i64) - 1, 1_000_000_000 - d.subsec_nanos())
+            }
+        }
+    }
+}
+
 pub fn none() -> Value {
     json!({"k": "none"})
 }
